@@ -16,7 +16,9 @@ import (
 	"github.com/sourcenetwork/immutable"
 
 	"github.com/sourcenetwork/defradb/client"
+	"github.com/sourcenetwork/defradb/client/request"
 	"github.com/sourcenetwork/defradb/errors"
+	"github.com/sourcenetwork/defradb/internal/connor"
 	"github.com/sourcenetwork/defradb/internal/core"
 	"github.com/sourcenetwork/defradb/internal/datastore"
 	"github.com/sourcenetwork/defradb/internal/db/id"
@@ -74,8 +76,13 @@ func newIndexFetcher(
 		indexField := mapper.Field{Index: typeIndex, Name: field.Name}
 		fieldsToCopy = append(fieldsToCopy, indexField)
 	}
+	// Only conditions that every result document must satisfy may select index entries.
+	// Conditions inside of an _or (or _not) branch are left to the document filter: copied per
+	// field and merged they would turn into a conjunction, and fetching only the entries that
+	// match one branch would lose the documents that satisfy another branch.
+	conjunctiveFilter := withoutDisjunctions(docFilter)
 	for i := range fieldsToCopy {
-		f.indexFilter = filter.Merge(f.indexFilter, filter.CopyField(docFilter, fieldsToCopy[i]))
+		f.indexFilter = filter.Merge(f.indexFilter, filter.CopyField(conjunctiveFilter, fieldsToCopy[i]))
 	}
 
 	for _, indexedField := range f.indexDesc.Fields {
@@ -92,6 +99,49 @@ func newIndexFetcher(
 
 	f.indexIter = iter
 	return f, iter.Init(ctx, txn.Datastore())
+}
+
+// withoutDisjunctions returns a copy of the filter without the _or and _not branches,
+// i.e. the conditions that hold for every document matching the given filter.
+func withoutDisjunctions(docFilter *mapper.Filter) *mapper.Filter {
+	if docFilter == nil {
+		return nil
+	}
+	return &mapper.Filter{Conditions: conjunctiveConditions(docFilter.Conditions)}
+}
+
+func conjunctiveConditions(conditions map[connor.FilterKey]any) map[connor.FilterKey]any {
+	result := make(map[connor.FilterKey]any, len(conditions))
+	for key, clause := range conditions {
+		op, isOp := key.(*mapper.Operator)
+		if !isOp {
+			result[key] = clause
+			continue
+		}
+		switch op.Operation {
+		case request.FilterOpOr, request.FilterOpNot:
+			continue
+		case request.FilterOpAnd:
+			elements, ok := clause.([]any)
+			if !ok {
+				continue
+			}
+			conjuncts := make([]any, 0, len(elements))
+			for _, element := range elements {
+				if elementMap, ok := element.(map[connor.FilterKey]any); ok {
+					if conjunct := conjunctiveConditions(elementMap); len(conjunct) > 0 {
+						conjuncts = append(conjuncts, conjunct)
+					}
+				}
+			}
+			if len(conjuncts) > 0 {
+				result[key] = conjuncts
+			}
+		default:
+			result[key] = clause
+		}
+	}
+	return result
 }
 
 func (f *indexFetcher) NextDoc() (immutable.Option[string], error) {
